@@ -353,6 +353,9 @@ func (e *Exec) loopHeader(b *ssa.BasicBlock, preds []*ssa.BasicBlock) {
 		initT = entryVal(ind)
 		_ = init
 		K = e.havoc("K"+fmt.Sprint(l.ordinal), "Int", false)
+		if e.parent == nil {
+			e.root().loopKs = append(e.root().loopKs, K, "(+ "+K+" 1)")
+		}
 		e.vals[ind] = val{t: K}
 		e.assume(implies(reach, and("(<= "+initT+" "+K+")", e.typeInv(ind.Type(), K))))
 	} else if nx != nil {
